@@ -179,10 +179,15 @@ func c19History(c *ctx, start typeSpec, ops []c19Op, how string) {
 			// a field the element had no value for when it was stored (or that
 			// left the type since: every element is read after every step, and
 			// reading drops the values of fields that are gone) reads as zero
+			wasClashed := clashed
 			for f := range ct.Attrs {
 				if _, isR := ct.Rels[f]; isR {
 					clashed = true // one name for an attribute and a relationship: from here on stored values may be of either
 				}
+			}
+			// Add extends the type only with fields it lacks: it never gives one name to two fields
+			if clashed && !wasClashed && (o.kind == "add" || o.kind == "addown") && key == "" {
+				key, detail = "add-created-name-clash", fmt.Sprintf("step %d %s: the collection's type now has an attribute and a relationship of the same name", i, o)
 			}
 			sig := map[string]string{}
 			for f, ca := range ct.Attrs {
